@@ -119,7 +119,14 @@ def run(ctx, func, items, chunksize=1):
         return
     if _POOL is None:
         _POOL = mp.get_context("fork").Pool(nproc, initializer=_init_worker)
-    for idx, res in _POOL.imap_unordered(_call, [(func, i, c) for i, c in items], chunksize):
+    it = _POOL.imap_unordered(_call, [(func, i, c) for i, c in items], chunksize)
+    limit = float(os.environ.get("VERIF_TASK_TIMEOUT", "3600"))
+    for _ in range(len(items)):
+        try:
+            idx, res = it.next(timeout=limit)
+        except mp.TimeoutError:
+            # a worker died (e.g. killed by the runtime) or hangs: machinery failure, never a verdict
+            raise RuntimeError("no worker result within %.0f s: a worker process died or hangs" % limit)
         yield idx, res
 
 
